@@ -71,6 +71,8 @@ pub fn run(o: &mut Out, tier: &str, seed: u64) {
     for st in ["", "crypto", "h\u{e9}llo", "\u{1f980}\u{1f980}", "\u{3b2}eta \u{2211} sum"] { check(o, &mut r, &st.to_string(), "string", "string"); }
     for len in [126usize, 127, 128, 129, 16383, 16384] { let st: String = (0..len).map(|i| if i % 5 == 0 { '\u{e9}' } else { 'x' }).collect(); check(o, &mut r, &st, "string", "string"); }
     let hh = Hash(r.arr32()); check(o, &mut r, &hh, "key", "fixed");
+    // extra sub-fields (component records of the transaction extra): boundary sizes of every kind, alone and with a suffix
+    crate::c16::run_subfield_rt(o, &mut r, if tier == "thorough" { 4000 } else { 400 });
     // the BulletproofPlus proof count is written as one raw byte: counts above 255 cannot round-trip (known finding)
     for n in [0usize, 1, 2, 127, 128, 200, 255, 256, 257, 300] { o.op(format!("c02_bpp_count {}", n), true); }
     o.notes.push("values from the type-directed generator (both versions, all 7 RingCT types, rings up to 40 / big, long vectors); non-trivial = every generated value (each is checked for round trip, length, strictness)".into());
